@@ -106,6 +106,16 @@ func VerifH18b() {
 	L := 4200
 	q := nondetBytes(3)
 	vAssume(vNoNUL(q))
+	if nondetBool() {
+		// a large (but legal) query: three symbolic bytes and a long tail, so that
+		// the message is bigger than the 4 KiB granule and bufio's chunking matters
+		tail := make([]byte, 4097)
+		for i := range tail {
+			tail[i] = 'a'
+		}
+		q = append(q, tail...)
+		vReach("large-retained-message")
+	}
 	pv := nondetBytes(2)
 	var keptQuery string
 	var keptCopy []byte
